@@ -779,7 +779,7 @@ func runStress(b *binding, tr *vh.Trace, rounds, workers int, seed int64) {
 }
 
 func main() {
-	mode := flag.String("mode", "hist", "hist | stress")
+	mode := flag.String("mode", "hist", "hist | stress | mux | conn")
 	cases := flag.String("cases", "", "cases file")
 	out := flag.String("trace", "", "trace output")
 	protos := flag.String("protos", "http1,xpp", "pools to drive")
@@ -788,6 +788,9 @@ func main() {
 	rounds := flag.Int("rounds", 10, "stress rounds")
 	workers := flag.Int("workers", 6, "stress workers")
 	flag.IntVar(&forceHow, "how", -1, "stress: force the way every exchange ends (debugging)")
+	reps := flag.Int("reps", 3, "conn: runs of every script that holds a race")
+	timed := flag.Bool("timed", false, "conn: scripts of the clock (shortened read / write deadlines)")
+	experiment := flag.String("experiment", "", "conn: slowconnect (not part of the verdict)")
 	flag.Parse()
 	log.DefaultLogger.SetLogLevel(log.FATAL)
 	log.Proxy.SetLogLevel(log.FATAL)
@@ -799,6 +802,10 @@ func main() {
 	vh.Must(err, "register ping-pong codec")
 	tr := vh.NewTrace(*out)
 	defer tr.Close()
+	if *mode == "conn" { // the life cycle of one connection object (conn.go, spec/network/Connection.tla)
+		runConn(*cases, tr, *shard, *shards, *reps, *timed, *experiment)
+		return
+	}
 	if *mode == "mux" {
 		mx, err := xc09.RegisterMX()
 		vh.Must(err, "register multiplex codec")
